@@ -44,7 +44,7 @@ def proof_stage(pid):
     outdir = os.path.join(VERIF, 'build', 'props', '%s.%d' % (pid, os.getpid()))
     os.makedirs(outdir, exist_ok=True)
     out_vo = os.path.join(outdir, pid + '.vo')
-    cmd = 'timeout 900 coqc -Q coq FxpVerif -w -notation-overridden,-ambiguous-paths -o %s coq/Props/%s.v' % (out_vo, pid)
+    cmd = 'flock -s build/.lock timeout 900 coqc -Q coq FxpVerif -w -notation-overridden,-ambiguous-paths -o %s coq/Props/%s.v' % (out_vo, pid)
     rc, out = sh(cmd, timeout=1000)
     shutil.rmtree(outdir, ignore_errors=True)
     info['log'] = out[-3000:]
